@@ -84,9 +84,6 @@ func vCheckMap(m Map[int, int], r *vRefMap, what string) {
 	for i := range ks {
 		vAssert(ks[i] == r.es[i].k, what+": Keys in order")
 	}
-	if n == 0 {
-		vAssert(ks == nil, what+": Keys of an empty map is nil")
-	}
 	// forward from First
 	i := 0
 	for it := m.First(); it.IsValid(); it.Next() {
@@ -335,7 +332,7 @@ func VH_omap_Zero() {
 	vAssert(z.Get(1) == 0, "zero Map: Get zero")
 	_, ok := z.GetOK(1)
 	vAssert(!ok, "zero Map: GetOK false")
-	vAssert(z.Keys() == nil, "zero Map: Keys nil")
+	vAssert(len(z.Keys()) == 0, "zero Map: no keys")
 	vAssert(!z.Delete(1), "zero Map: Delete false")
 	z.Clear()
 	vAssert(!z.First().IsValid() && !z.Last().IsValid() && !z.Seek(1).IsValid(), "zero Map: iterators invalid")
